@@ -75,29 +75,41 @@ def two_unresolved(r, inputs):
                   and r.rhs.edges()[a].label not in inputs and r.rhs.edges()[b].label not in inputs, "int,int")
 
 
+def rules_of(fgg, n):
+    # the rules the grammar has for n, as HRG.rules returns them (verified contract): the table entry, or nothing
+    return fgg._rules[n] if n in fgg._rules else []
+
+
 @contract("fggs.sum_product.linear")
 class linear:
-    sig = {"fgg": "HRGView", "inputs": "opaque", "out_labels": "seq[EdgeLabel]", "semiring": "opaque"}
+    sig = {"fgg": "HRGTable", "inputs": "opaque", "out_labels": "seq[EdgeLabel]", "semiring": "opaque"}
     properties = ["C02"]
     opaque_calls = ["FGGMultiShape", "MultiTensor", "sum_product_edges", "multi_solve", "print_duplicate"]
     opaque_results = {"print_duplicate": "bool"}
     loops = {
-        0: lambda fgg, inputs, out_labels, _i0: forall(
-            lambda i, r: implies(0 <= i and i < _i0 and out_labels[i] not in inputs
-                                 and r in fgg._rule_seq and r.lhs == out_labels[i], not two_unresolved(r, inputs)), "int,RuleV"),
+        0: lambda fgg, inputs, out_labels, _i0: (
+            fgg._rules == old(fgg._rules)
+            and forall(lambda i, j: implies(0 <= i and i < _i0 and out_labels[i] not in inputs and out_labels[i] in fgg._rules
+                                            and 0 <= j and j < len(fgg._rules[out_labels[i]]),
+                                            not two_unresolved(fgg._rules[out_labels[i]][j], inputs)), "int,int")),
         1: lambda fgg, inputs, out_labels, n, _i0, _i1, _it1: (
-            forall(lambda i, r: implies(0 <= i and i < _i0 and out_labels[i] not in inputs
-                                        and r in fgg._rule_seq and r.lhs == out_labels[i], not two_unresolved(r, inputs)), "int,RuleV")
+            fgg._rules == old(fgg._rules)
+            and _it1 == (fgg._rules[n] if n in fgg._rules else _it1) and implies(n not in fgg._rules, len(_it1) == 0)
+            and forall(lambda i, j: implies(0 <= i and i < _i0 and out_labels[i] not in inputs and out_labels[i] in fgg._rules
+                                            and 0 <= j and j < len(fgg._rules[out_labels[i]]),
+                                            not two_unresolved(fgg._rules[out_labels[i]][j], inputs)), "int,int")
             and forall(lambda j: implies(0 <= j and j < _i1, not two_unresolved(_it1[j], inputs)), "int")),
     }
     # cut: when the error message is being built, the current rule has two unresolved edges
     checks = {"rhs = ' '.join((e.label.name for e in edges))": lambda rule, inputs: two_unresolved(rule, inputs)}
     ensures = {"linearly_recursive": lambda fgg, inputs, out_labels: forall(
-        lambda i, r: implies(0 <= i and i < len(out_labels) and out_labels[i] not in inputs
-                             and r in fgg._rule_seq and r.lhs == out_labels[i], not two_unresolved(r, inputs)), "int,RuleV")}
+        lambda i, j: implies(0 <= i and i < len(out_labels) and out_labels[i] not in inputs and out_labels[i] in fgg._rules
+                             and 0 <= j and j < len(fgg._rules[out_labels[i]]),
+                             not two_unresolved(fgg._rules[out_labels[i]][j], inputs)), "int,int")}
     raises = {"ValueError": lambda fgg, inputs, out_labels: exists(
-        lambda i, r: 0 <= i and i < len(out_labels) and out_labels[i] not in inputs
-        and r in fgg._rule_seq and r.lhs == out_labels[i] and two_unresolved(r, inputs), "int,RuleV")}
+        lambda i, j: 0 <= i and i < len(out_labels) and out_labels[i] not in inputs and out_labels[i] in fgg._rules
+        and 0 <= j and j < len(fgg._rules[out_labels[i]])
+        and two_unresolved(fgg._rules[out_labels[i]][j], inputs), "int,int")}
 
 
 # ---- per-component choice of the solver in sum_products (C01 / C02) ----------------------------------------
